@@ -46,6 +46,21 @@ func draw(t *rapid.T) *pbt.Case {
 		c.Aux = append(c.Aux, p)
 		c.SetStr(fmt.Sprintf("perturbation%d", k+1), what)
 	}
+	if rapid.IntRange(0, 3).Draw(t, "doublemark") == 0 {
+		// Mark(Mark(e, r1), r2) with r1 and r2 of equal message and chain
+		// length but different type: both marks must keep matching.
+		msg, pfx := str(t, "m"), str(t, "p")
+		pairs := [][2]*gen.Spec{
+			{{K: "goerr", S: []string{msg}}, {K: "uleafptr", S: []string{msg}}},
+			{{K: "rleaf", S: []string{msg}}, {K: "uoptleaf", S: []string{msg}}},
+			{{K: "withmsg", S: []string{pfx}, C: &gen.Spec{K: "goerr", S: []string{msg}}}, {K: "pkgmsg", S: []string{pfx}, C: &gen.Spec{K: "goerr", S: []string{msg}}}},
+			{{K: "goerrorf", S: []string{pfx}, C: &gen.Spec{K: "uleafval", S: []string{msg}}}, {K: "uwrapnofmt", S: []string{pfx}, C: &gen.Spec{K: "uleafval", S: []string{msg}}}},
+		}
+		pr := pairs[rapid.IntRange(0, len(pairs)-1).Draw(t, "pair")]
+		c.Spec = &gen.Spec{K: "mark", C: &gen.Spec{K: "mark", C: c.Spec, X: []*gen.Spec{pr[0]}}, X: []*gen.Spec{pr[1]}}
+		c.Aux = append(c.Aux, pr[0].Clone(), pr[1].Clone())
+		c.SetStr("feature", "double mark")
+	}
 	wk := rapid.SampledFrom(monotoneWrappers).Draw(t, "monotone-wrapper")
 	w := g.WrapOf(t, wk, &gen.Spec{K: "goerr", S: []string{"placeholder"}})
 	for i := range w.X {
@@ -107,13 +122,12 @@ func check(c *pbt.Case, r *pbt.R) {
 		}
 		refs = append(refs, ref{vs[0], "sentinel"})
 	}
-	nAux := len(c.Aux)
 	var wrapper *gen.Spec
-	if nAux >= 5 {
-		wrapper = c.Aux[nAux-1]
-		nAux--
-	}
-	for i := 0; i < nAux; i++ {
+	for i := 0; i < len(c.Aux); i++ {
+		if a := c.Aux[i]; a.C != nil && a.C.K == "goerr" && len(a.C.S) == 1 && a.C.S[0] == "placeholder" {
+			wrapper = a // the monotonicity wrapper template
+			continue
+		}
 		vs, err := gen.RefsOf(c.Aux[i])
 		if err != nil {
 			r.Failf("model and implementation disagree on the layer structure", "%v", err)
@@ -212,6 +226,9 @@ func check(c *pbt.Case, r *pbt.R) {
 	}
 	if wrapper != nil {
 		r.Count("monotone wrapper", wrapper.K)
+	}
+	if c.S["feature"] != "" {
+		r.Count("features", c.S["feature"])
 	}
 	r.St.CountN("references per case", len(refs))
 }
